@@ -35,7 +35,9 @@ func Relate(a, b Geometry) (string, error) {
 			nonEmpty = a
 			flip = true
 		}
-		switch nonEmpty.Dimension() {
+		// Empty elements of a collection don't contribute any points, so
+		// don't let them contribute to its dimension either.
+		switch highestDimensionIgnoreEmpties(nonEmpty) {
 		case 0:
 			im.set(imExterior, imInterior, '0')
 			im.set(imExterior, imBoundary, 'F')
@@ -174,8 +176,13 @@ func CoveredBy(a, b Geometry) (bool, error) {
 //
 // 3. The intersection must not equal either of the input geometries.
 func Crosses(a, b Geometry) (bool, error) {
-	dimA := a.Dimension()
-	dimB := b.Dimension()
+	if a.IsEmpty() || b.IsEmpty() {
+		return false, nil
+	}
+	// Use the dimension of the non-empty parts only (an empty Polygon inside
+	// a collection doesn't make the collection areal).
+	dimA := highestDimensionIgnoreEmpties(a)
+	dimB := highestDimensionIgnoreEmpties(b)
 	switch {
 	case dimA < dimB: // Point/Line, Point/Area, Line/Area
 		return relateMatchesAnyPattern(a, b, "T*T******")
@@ -198,8 +205,13 @@ func Crosses(a, b Geometry) (bool, error) {
 // 3. The intersection of the geometries must have the same dimension as the
 // geometries themselves.
 func Overlaps(a, b Geometry) (bool, error) {
-	dimA := a.Dimension()
-	dimB := b.Dimension()
+	if a.IsEmpty() || b.IsEmpty() {
+		return false, nil
+	}
+	// Use the dimension of the non-empty parts only (an empty Polygon inside
+	// a collection doesn't make the collection areal).
+	dimA := highestDimensionIgnoreEmpties(a)
+	dimB := highestDimensionIgnoreEmpties(b)
 	switch {
 	case (dimA == 0 && dimB == 0) || (dimA == 2 && dimB == 2):
 		return relateMatchesAnyPattern(a, b, "T*T***T**")
